@@ -58,7 +58,7 @@ pub struct OpsCase {
 
 fn special_operand(sel: u8, n: &U1024, x: U1024, small: u64) -> U1024 {
     let one = U1024::ONE;
-    let v = match sel % 12 {
+    let v = match sel % 14 {
         0 => U1024::ZERO,
         1 => one,
         2 => *n - one,
@@ -80,6 +80,23 @@ fn special_operand(sel: u8, n: &U1024, x: U1024, small: u64) -> U1024 {
         // isqrt-ish: x*y near a multiple of n
         8 => crate::oracle::int::ref_isqrt(n),
         9 => crate::oracle::int::ref_isqrt(n) + one,
+        // operands chosen by their *Montgomery residue* (what the word loops see): the value whose residue
+        // xR mod n is n-1-small, all ones below the top word, or the generated pattern itself
+        10 | 11 | 12 => {
+            let k = (n.bits() + 63) / 64;
+            let nr: Ref = widen(n);
+            let rinv = ref_invmod(&(rpow(k) % nr), &nr).expect("odd modulus");
+            let pattern: U1024 = match sel % 12 {
+                10 => (*n - one).saturating_sub(U1024::from(small)),
+                11 => {
+                    // all-ones words with the generated top word
+                    let low = (one << (64 * (k - 1))) - one;
+                    ((x >> (64 * (k - 1))) << (64 * (k - 1))) | low
+                }
+                _ => x,
+            } % *n;
+            crate::oracle::int::narrow::<16>(&((widen(&pattern) * rinv) % nr))
+        }
         _ => x,
     };
     v % *n
@@ -115,7 +132,7 @@ pub fn modulus_strategy() -> impl Strategy<Value = U1024> {
 pub fn ops_strategy() -> impl Strategy<Value = OpsCase> {
     (
         modulus_strategy(),
-        proptest::collection::vec((0u8..14, edgy::<16>(512), 0u64..40), 2..5),
+        proptest::collection::vec((0u8..16, edgy::<16>(512), 0u64..40), 2..5),
         proptest::collection::vec((0u8..5, any::<u8>(), any::<u8>()), 0..24),
     )
         .prop_map(|(n, raw, prog)| {
